@@ -10,6 +10,7 @@
 #include "libcola/cola.h"
 #include "libtopology/cola_topology_addon.h"
 #include "libtopology/topology_graph.h"
+#include "libtopology/topology_constraints.h"
 #include "libvpsc/assertions.h"
 #include <array>
 #include <tuple>
@@ -265,6 +266,45 @@ void TopoSession::run() {
         curOp = (int)oi;
         const Json &op = ops[oi];
         std::string o = op.str("op", "");
+        if (o == "direct") {
+            // One live TopologyConstraints object driven through several moves (as libtopology's own tests and an interactive
+            // client do): desired positions change between solve() calls, so bends released by one move may have to come back
+            // in the next.  (ColaTopologyAddon, used by "run", builds a fresh object for every pass.)
+            if (curNodes != &tn) continue;
+            w->log.ev("topo-direct", id, (long)oi);
+            vpsc::Dim dim = op.i("dim", 0) ? vpsc::VERTICAL : vpsc::HORIZONTAL;
+            vpsc::Variables vs; vpsc::Constraints cs;
+            topology::TopologyConstraints *t = nullptr;
+            std::string e2 = guarded([&] {
+                for (size_t i = 0; i < tn.size(); i++) vs.push_back(new vpsc::Variable((int)i, dim == vpsc::HORIZONTAL ? rs[i]->getCentreX() : rs[i]->getCentreY()));
+                topology::setNodeVariables(tn, vs);       // as ColaTopologyAddon does before every pass
+                t = new topology::TopologyConstraints(dim, tn, routes, nullptr, vs, cs);
+            });
+            int step = 0;
+            for (auto &st : op["steps"].a) {
+                if (!e2.empty()) break;
+                step++;
+                e2 = guarded([&] {
+                    for (size_t i = 0; i < tn.size(); i++) { vs[i]->desiredPosition = dim == vpsc::HORIZONTAL ? rs[i]->getCentreX() : rs[i]->getCentreY(); vs[i]->weight = 1; }
+                    for (auto &sj : st["set"].a) { size_t i = (size_t)sj[0].i(); if (i < tn.size()) { vs[i]->desiredPosition = sj[1].num(); vs[i]->weight = 10000; } }
+                    t->solve();
+                });
+                if (!e2.empty()) break;
+                probe("topology.direct-solve");
+                if (armed("C13")) verify("direct");
+                yield("direct-step");
+            }
+            if (!e2.empty()) {
+                w->fault("exception"); probe(e2.c_str());
+                violate("C15", "assert", e2, "during TopologyConstraints::solve");
+                violate("C13", "library-check", "direct:" + e2, fmt("direct move %d", step));       // own signature class: its baseline rate differs from the layout's
+                dead = true; break;
+            }
+            std::string e3 = guarded([&] { delete t; for (auto v : vs) delete v; for (auto c : cs) delete c; for (auto nd : tn) nd->var = nullptr; });
+            if (!e3.empty()) { probe(e3.c_str()); violate("C15", "assert", e3, "TopologyConstraints teardown"); dead = true; break; }
+            yield("op");
+            continue;
+        }
         if (o != "run") continue;
         w->log.ev("topo-run", id, (long)oi);
         convCalls = 0; preCalls = 0; stopAtIter = 0; events.clear();
@@ -329,6 +369,27 @@ Json genTopoSession(Rng &r, const std::string &tier) {
     cfg.set("preiteration", true);
     s.set("cfg", cfg);
     Json ops = Json::arr();
+    if (r.chance(0.3)) {
+        // direct moves on one live TopologyConstraints object: a few nodes are dragged, then dragged back or further
+        Json o = Json::obj(); o.set("op", "direct"); int dim = (int)r.below(2); o.set("dim", dim);
+        Json steps = Json::arr();
+        int k = r.range(2, 5);
+        std::vector<std::pair<int, double>> last;
+        for (int st = 0; st < k; st++) {
+            Json sj = Json::obj(); Json set = Json::arr();
+            if (!last.empty() && r.chance(0.5)) { for (auto &pr : last) { Json e = Json::arr(); e.push(pr.first); e.push(pr.second); set.push(e); } last.clear(); }     // back to where they came from
+            else {
+                int m = r.range(1, 2); last.clear();
+                for (int j = 0; j < m; j++) {
+                    int i = (int)r.below(n); double cur = dim == 0 ? rr[i].x + rr[i].w / 2 : rr[i].y + rr[i].h / 2;
+                    double to = cur + (double)r.range(-12, 12) * 10;
+                    Json e = Json::arr(); e.push(i); e.push(to); set.push(e); last.push_back({i, cur});
+                }
+            }
+            sj.set("set", set); steps.push(sj);
+        }
+        o.set("steps", steps); ops.push(o);
+    }
     int runs = r.range(1, 2);
     for (int k = 0; k < runs; k++) {
         Json o = Json::obj(); o.set("op", "run");
